@@ -49,11 +49,17 @@ impl PendingGuard {
 }
 // Arc<RequestId>
 #[verifier::external_body] pub struct AtomicU32 { _p: u32 }
-pub enum Ordering { Relaxed }
+pub enum Ordering { Relaxed, Acquire, Release, AcqRel, SeqCst }
 impl AtomicU32 {
     #[verifier::external_body] pub fn new(v: u32) -> (r: AtomicU32) { unimplemented!() }
     // returns the value before the addition; distinct calls return distinct values until 2^32 calls were made (ASSUMED: fewer)
     #[verifier::external_body] pub fn fetch_add(&self, v: u32, o: Ordering) -> (r: u32) { unimplemented!() }
+    #[verifier::external_body] pub fn load(&self, o: Ordering) -> (r: u32) { unimplemented!() }
+    // the id counter only ever moves forward: anything that could hand out an id again breaks the pairing of replies with requests
+    #[verifier::external_body] pub fn fetch_sub(&self, v: u32, o: Ordering) -> (r: u32) requires false /* [C04.request_ids_never_rewound] */ { unimplemented!() }
+    #[verifier::external_body] pub fn store(&self, v: u32, o: Ordering) requires false /* [C04.request_ids_never_rewound] */ { unimplemented!() }
+    #[verifier::external_body] pub fn swap(&self, v: u32, o: Ordering) -> (r: u32) requires false /* [C04.request_ids_never_rewound] */ { unimplemented!() }
+    #[verifier::external_body] pub fn compare_exchange(&self, cur: u32, new: u32, s: Ordering, f: Ordering) -> (r: core::result::Result<u32, u32>) requires false /* [C04.request_ids_never_rewound] */ { unimplemented!() }
 }
 // Arc<Mutex<WriteHalf>> / Arc<Mutex<ReadHalf>>
 #[verifier::external_body] pub struct SharedWriteHalf { _p: u8 }
@@ -62,12 +68,16 @@ impl AtomicU32 {
 #[verifier::external_body] pub struct ReadGuard { _p: u8 }
 impl SharedWriteHalf { #[verifier::external_body] pub async fn lock(&self) -> (r: WriteGuard) { unimplemented!() } }
 impl SharedReadHalf { #[verifier::external_body] pub async fn lock(&self) -> (r: ReadGuard) { unimplemented!() } }
+impl Clone for SharedWriteHalf { #[verifier::external_body] fn clone(&self) -> (r: Self) ensures r == *self { unimplemented!() } }
 impl Clone for SharedReadHalf { #[verifier::external_body] fn clone(&self) -> (r: Self) ensures r == *self { unimplemented!() } }
 impl WriteGuard {
     pub uninterp spec fn sent(&self) -> Seq<Frame>;
     // SinkExt::send = feed + flush
     #[verifier::external_body] pub async fn send(&mut self, f: Frame) -> (r: core::result::Result<(), SeliumError>)
         ensures r is Ok ==> final(self).sent() == old(self).sent().push(f), r is Err ==> final(self).sent() == old(self).sent() || final(self).sent() == old(self).sent().push(f) { unimplemented!() }
+    #[verifier::external_body] pub async fn feed(&mut self, f: Frame) -> (r: core::result::Result<(), SeliumError>)
+        ensures r is Ok ==> final(self).sent() == old(self).sent().push(f), r is Err ==> final(self).sent() == old(self).sent() { unimplemented!() }
+    #[verifier::external_body] pub async fn flush(&mut self) -> (r: core::result::Result<(), SeliumError>) ensures final(self).sent() == old(self).sent() { unimplemented!() }
 }
 impl ReadGuard {
     #[verifier::external_body] pub async fn next(&mut self) -> (r: Option<core::result::Result<Frame, SeliumError>>) { unimplemented!() }
